@@ -4,6 +4,7 @@ import (
 	"bufio"
 	"bytes"
 	"io"
+	"strconv"
 )
 
 // verif_C06_budget: one dataReader.Read from an arbitrary reader state with an
@@ -224,4 +225,75 @@ func verif_C06_bdat() {
 	} else {
 		verifAssert(rerr != io.EOF || len(got) == 0 && rerr == nil, "C06.bdat-oversize-never-complete")
 	}
+}
+
+// verif_C06_bdat_step: the BDAT budget arithmetic as ONE inductive step. A
+// chunked transfer is opened by a first real chunk; then the connection's
+// running total and the server's limit are replaced by ARBITRARY 64-bit values
+// r and N satisfying the invariant 0 <= r <= N (N <= 2^62: limits near the
+// top of int64 are outside the claim), and one more BDAT of 0..3 octets is
+// processed. It must be accepted iff r + size <= N; after acceptance the
+// total is exactly r + size (so the invariant holds again, which extends the
+// claim to any number of chunks); after refusal the transaction is gone.
+func verif_C06_bdat_step() {
+	verifPreemptBound(0)
+	size := nondetInt(0, 3)
+	last := nondetBool()
+	r := nondetInt64()
+	N := nondetInt64()
+	assume(N >= 1 && N <= 1<<62 && r >= 0 && r <= N)
+	be := &vbackend{}
+	var rerr error
+	ngot := 0
+	be.dataFn = func(_ *vsession, rd io.Reader) error {
+		b, e := verifReadAll(rd, 4)
+		ngot, rerr = len(b), e
+		if e == io.EOF {
+			return nil
+		}
+		return e
+	}
+	s, _ := verifServer(be)
+	vc := &vconn{in: []byte("EHLO c\r\nMAIL FROM:<s@v>\r\nRCPT TO:<r@v>\r\nBDAT 1\r\nx"), final: io.EOF}
+	var conn *Conn
+	stage := 0
+	vc.script = func(c *vconn) bool {
+		if stage > 0 {
+			return false
+		}
+		stage = 1
+		// the first chunk has been processed: replace the budget state
+		conn.bytesReceived = r
+		s.MaxMessageBytes = N
+		line := "BDAT " + strconv.Itoa(size)
+		if last {
+			line += " LAST"
+		}
+		c.in = append(c.in, line+"\r\n"...)
+		c.in = append(c.in, nondetBytesN(size)...)
+		c.in = append(c.in, "NOOP\r\n"...)
+		return true
+	}
+	conn = newConn(vc, s)
+	s.handleConn(conn)
+	verifSettle()
+	code := verifNthReplyCode(vc.out, 5)
+	fits := r+int64(size) <= N // no wrap: r <= N <= 2^62 and size <= 3
+	verifObserve("c06bs", size, last, r, N, code, fits)
+	if fits {
+		verifReach("C06.step-fits")
+		verifAssert(code == 250, "C06.step-fitting-chunk-accepted")
+		if !last {
+			// (the disconnect after NOOP has reset the transaction; the total
+			// is observed through what the backend was handed)
+			verifAssert(ngot == 1+size, "C06.step-backend-got-the-chunk")
+		} else {
+			verifAssert(rerr == io.EOF && ngot == 1+size, "C06.step-last-chunk-completes")
+		}
+	} else {
+		verifReach("C06.step-over")
+		verifAssert(code == 552, "C06.step-over-limit-chunk-refused")
+		verifAssert(rerr != io.EOF && ngot <= 1, "C06.step-over-limit-never-complete")
+	}
+	verifAssert(verifNthReplyCode(vc.out, 6) == 250, "C06.step-command-mode-after")
 }
